@@ -440,6 +440,8 @@ theorem reachable_pool_invariants (ops : List Op) (c : String) :
 
 theorem fact_cancel_conds : Generated.cancel_conds =
     "ste.Id == id | send == nil | sender.String() != send.Sender | err != nil | err != nil | send.RefundChainId != \"\" | send.RefundChainId == \"hub\" | err != nil | err != nil | err != nil" := rfl
+theorem fact_cancel_call_order : Generated.cancel_call_order =
+    "MintCoins,SendCoinsFromModuleToAccount,SendCoinsFromModuleToAccount,createSendToExternal,SetTxStatus,deleteUnbatchedSendToExternal" := rfl
 theorem fact_cancel_lookup : Generated.cancel_lookup = "k.getUnbatchedSendToExternals(ctx, chainId)" := rfl
 theorem fact_cancel_refund_arith : Generated.cancel_refund_arith =
     "send.Token.HubCoin(func(id uint64) (string, error) { info, err := k.TokenIdToTokenInfoLookup(ctx, id) if err != nil { return \"\", err } return info.Denom, nil }) | totalToRefund.Amount.Add(send.Fee.Amount).Add(send.ValCommission.Amount) | k.ConvertFromExternalValue(ctx, chainId, send.Token.ExternalTokenId, totalToRefund.Amount) | sdk.NewCoins(totalToRefund)" := rfl
